@@ -41,7 +41,7 @@ PROPS = {
                   simulate=dict(quick="num=600", thorough="num=25000", depth=80))], shards=14),
               dict(topic="compress", gen=[dict(module="Gen_Packet", cfg="Gen_Packet.cfg", out="packet_cases.ndjson",
                   simulate=dict(quick="num=1500", thorough="num=25000", depth=80))], shards=14)],
-        rules=["NoPanic", "SinkErr", "SinkSame", "BuildOk", "PlainCanonical", "CompDecodes"],
+        rules=["NoPanic", "SinkErr", "SinkSame", "BuildOk", "PlainCanonical", "CompDecodes", "WellFramed"],
     ),
     "C05": dict(
         gen=[dict(module="Gen_Framing", cfg="Gen_Framing.cfg", cfg_thorough="Gen_Framing_thorough.cfg", out="framing_cases.ndjson"),
